@@ -237,7 +237,7 @@ def _gen_bms(rng):
                 d=rng.choice([1, 2, secp256k1.n - 1, rng.randrange(1, secp256k1.n)]), compressed=compressed, addr_kind=kind, tamper=rng.choice(["msg", "s", "flag", "addr"]))
 
 
-@contract("contracts.c_dsa.bms_run", gen=_gen_bms, props="C02 C04", both_arms=True, n_quick=150, n_thorough=3000,
+@contract("contracts.c_dsa.bms_run", gen=_gen_bms, props="C02 C04 C10", both_arms=True, n_quick=150, n_thorough=3000,
           rule="messages of 0..300 bytes; compressed and uncompressed keys; p2pkh, p2wpkh, p2wpkh-p2sh addresses; one alteration of message, s, recovery flag or address")
 class BmsBounded:
     """the 65-byte signature is [flag][r][s] with (r, s) an ECDSA signature, by the reference
